@@ -82,12 +82,13 @@ pub open spec fn hdr32(code: u8, e: IsArrayElement, body_len: int, count: int) -
         num <= buf@.len(),        // ASSUMED of the serializer call sites: every element of a list occupies at least one byte, so count <= byte length
     ensures
         r is Ok ==> final(writer).out@ == old(writer).out@ + (
-            if buf@.len() == 0 { seq![0x45u8] }                                                           // [C05.list.list0] [C03.rt.encoder-premise] the empty list is list0
+            if !(*ext_is_array_elem is False) { hdr32(0xd0, *ext_is_array_elem, buf@.len() as int, num as int) }   // [C05.array.one-constructor-for-all-elements] [C03.rt.encoder-premise] an array has ONE element constructor: a list that is an array element is written in the 32-bit form whatever its own size (empty, short or long), so that every element body matches the constructor the first one wrote
+            else if buf@.len() == 0 { seq![0x45u8] }                                                      // [C05.list.list0] [C03.rt.encoder-premise] the empty list is list0
             else if buf@.len() <= 254 { hdr8(0xc0, *ext_is_array_elem, buf@.len() as int, num as int) }     // [C05.list.list8] [C03.rt.encoder-premise] list8: size = body + 1, count, both exact in 8 bits
             else { hdr32(0xd0, *ext_is_array_elem, buf@.len() as int, num as int) }                         // [C05.list.list32] [C03.rt.encoder-premise] list32: big-endian size = body + 4, big-endian count
         ) + buf@,
         r is Ok ==> buf@.len() <= 0xffff_fffb,                                                              // [C05.list.too-long] a body that does not fit the 32-bit size field is refused
-        r is Ok && 0 < buf@.len() <= 254 ==> num <= 255 && buf@.len() + 1 <= 255,                           // [C03.list.no-truncation] the 8-bit form is chosen only when size and count fit in 8 bits
+        r is Ok && *ext_is_array_elem is False && 0 < buf@.len() <= 254 ==> num <= 255 && buf@.len() + 1 <= 255,                           // [C03.list.no-truncation] the 8-bit form is chosen only when size and count fit in 8 bits
 //@@ end
 
 //@@ fn file=serde_amqp/src/ser.rs name=write_map
@@ -101,11 +102,12 @@ pub open spec fn hdr32(code: u8, e: IsArrayElement, body_len: int, count: int) -
         num <= buf@.len(),        // ASSUMED of the serializer call sites (2 entries per pair, each at least one byte)
     ensures
         r is Ok ==> final(writer).out@ == old(writer).out@ + (
-            if buf@.len() <= 254 { hdr8(0xc1, *ext_is_array_elem, buf@.len() as int, num as int) }          // [C05.map.map8] [C03.rt.encoder-premise]
+            if !(*ext_is_array_elem is False) { hdr32(0xd1, *ext_is_array_elem, buf@.len() as int, num as int) }   // [C05.array.one-constructor-for-all-elements] [C03.rt.encoder-premise]
+            else if buf@.len() <= 254 { hdr8(0xc1, *ext_is_array_elem, buf@.len() as int, num as int) }     // [C05.map.map8] [C03.rt.encoder-premise]
             else { hdr32(0xd1, *ext_is_array_elem, buf@.len() as int, num as int) }                         // [C05.map.map32] [C03.rt.encoder-premise]
         ) + buf@,
         r is Ok ==> buf@.len() <= 0xffff_fffb,
-        r is Ok && buf@.len() <= 254 ==> num <= 255,                                                        // [C03.map.no-truncation]
+        r is Ok && *ext_is_array_elem is False && buf@.len() <= 254 ==> num <= 255,                                                        // [C03.map.no-truncation]
 //@@ end
 
 //@@ fn file=serde_amqp/src/ser.rs name=write_array
@@ -119,11 +121,12 @@ pub open spec fn hdr32(code: u8, e: IsArrayElement, body_len: int, count: int) -
         num <= buf@.len(),        // ASSUMED of the serializer call sites (this implementation writes at least one byte per array element)
     ensures
         r is Ok ==> final(writer).out@ == old(writer).out@ + (
-            if buf@.len() <= 254 { hdr8(0xe0, *ext_is_array_elem, buf@.len() as int, num as int) }          // [C05.array.array8] [C03.rt.encoder-premise] array8: size = (constructor + elements) + 1, count
+            if !(*ext_is_array_elem is False) { hdr32(0xf0, *ext_is_array_elem, buf@.len() as int, num as int) }   // [C05.array.one-constructor-for-all-elements] [C03.rt.encoder-premise]
+            else if buf@.len() <= 254 { hdr8(0xe0, *ext_is_array_elem, buf@.len() as int, num as int) }     // [C05.array.array8] [C03.rt.encoder-premise] array8: size = (constructor + elements) + 1, count
             else { hdr32(0xf0, *ext_is_array_elem, buf@.len() as int, num as int) }                         // [C05.array.array32] [C03.rt.encoder-premise]
         ) + buf@,
         r is Ok ==> buf@.len() <= 0xffff_fffb,
-        r is Ok && buf@.len() <= 254 ==> num <= 255,                                                        // [C03.array.no-truncation]
+        r is Ok && *ext_is_array_elem is False && buf@.len() <= 254 ==> num <= 255,                                                        // [C03.array.no-truncation]
 //@@ end
 
 // ---- the size-only twins (size_ser.rs): what `serialized_size` adds for a compound of `len` body octets ----
@@ -131,21 +134,21 @@ pub open spec fn hdr32(code: u8, e: IsArrayElement, body_len: int, count: int) -
 //@@ spec
     ensures
         (r is Ok) == (len <= 0xffff_fffb),                                                            // [C20.size.compound-refusal] refused exactly when the encoder refuses
-        r is Ok ==> r->Ok_0 == (if len == 0 { seq![0x45u8] } else if len <= 254 { hdr8(0xc0, *is_array_element, len as int, 0) } else { hdr32(0xd0, *is_array_element, len as int, 0) }).len() + len,   // [C20.size.list] serialized_size of a list == header written by write_list + body, in every position
+        r is Ok ==> r->Ok_0 == (if !(*is_array_element is False) { hdr32(0xd0, *is_array_element, len as int, 0) } else if len == 0 { seq![0x45u8] } else if len <= 254 { hdr8(0xc0, *is_array_element, len as int, 0) } else { hdr32(0xd0, *is_array_element, len as int, 0) }).len() + len,   // [C20.size.list] serialized_size of a list == header written by write_list + body, in every position
 //@@ end
 
 //@@ fn file=serde_amqp/src/size_ser.rs name=array_size
 //@@ spec
     ensures
         (r is Ok) == (len <= 0xffff_fffb),                                                            // [C20.size.compound-refusal]
-        r is Ok ==> r->Ok_0 == (if len <= 254 { hdr8(0xe0, *is_array_element, len as int, 0) } else { hdr32(0xf0, *is_array_element, len as int, 0) }).len() + len,   // [C20.size.array]
+        r is Ok ==> r->Ok_0 == (if !(*is_array_element is False) { hdr32(0xf0, *is_array_element, len as int, 0) } else if len <= 254 { hdr8(0xe0, *is_array_element, len as int, 0) } else { hdr32(0xf0, *is_array_element, len as int, 0) }).len() + len,   // [C20.size.array]
 //@@ end
 
 //@@ fn file=serde_amqp/src/size_ser.rs name=map_size
 //@@ spec
     ensures
         (r is Ok) == (len <= 0xffff_fffb),                                                            // [C20.size.compound-refusal]
-        r is Ok ==> r->Ok_0 == (if len <= 254 { hdr8(0xc1, *is_array_element, len as int, 0) } else { hdr32(0xd1, *is_array_element, len as int, 0) }).len() + len,   // [C20.size.map]
+        r is Ok ==> r->Ok_0 == (if !(*is_array_element is False) { hdr32(0xd1, *is_array_element, len as int, 0) } else if len <= 254 { hdr8(0xc1, *is_array_element, len as int, 0) } else { hdr32(0xd1, *is_array_element, len as int, 0) }).len() + len,   // [C20.size.map]
 //@@ end
 
 } // verus!
